@@ -67,3 +67,51 @@ def lexer_table(engine):
 
 REG.custom('C02', 'Lexer.token_table', lexer_table,
            note='SMT audit of the live token table against the AST of Lexer.lex: progress and newline bookkeeping per token kind')
+
+
+# ---- Lexer.lex as a whole: the tokens tile the text (adjacent, non-empty byte spans from 0 to the end), the scan position
+# strictly increases, and nothing but ParseException escapes.  The regexes are abstract matches constrained to the language of
+# the live pattern (pyvc/regex.py); the token table is the real one, read from a Lexer instance.
+from pyvc.api import Int, Bool, Str, Seq, Struct, Loop, Opt, List, Set, Obj, Const, Rec
+
+
+def _lexer_consts(machinefile):
+    import sys, os
+    from pyvc import src as _src
+    mod = _src.import_module(P)
+    lx = mod.Lexer('', machinefile=machinefile)
+    return lx
+
+
+TokenR = Rec('Token', tid=Str, filename=Str, line_start=Int, lineno=Int, colno=Int, bytespan_0=Int, bytespan_1=Int, value=Str)
+REG.consts.update(TokenR=TokenR)
+
+
+@REG.spec([Seq(TokenR), Int, Int], Bool)
+def tiles(ys, n, end):
+    """the first n tokens cover [0, end) with adjacent non-empty spans"""
+    if n <= 0:
+        return end == 0
+    return ys[n - 1].bytespan_1 == end and ys[n - 1].bytespan_0 < end and tiles(ys, n - 1, ys[n - 1].bytespan_0)
+
+
+REG.contract('C02', P, 'Lexer.getline', inline=True, trusted=True, note='inlined: the text of the current line for error messages')
+# tiling of the yielded tokens, pointwise (quantified over the index) so that appending one token needs no induction
+TILES = ('forall(Int, lambda k: implies(0 <= k and k < len(__yield__), __yield__[k].bytespan_0 < __yield__[k].bytespan_1 and '
+         '__yield__[k].bytespan_0 == (0 if k == 0 else __yield__[k - 1].bytespan_1)))')
+LAST = '(loc == 0) if len(__yield__) == 0 else (__yield__[len(__yield__) - 1].bytespan_1 == loc)'
+try:
+    for _mf in (False, True):
+        _lx = _lexer_consts(_mf)
+        LexS = Struct('Lexer', 'mesonbuild.mparser:Lexer', code=Str, keywords=Const(_lx.keywords), future_keywords=Const(_lx.future_keywords),
+                      token_specification=Const(_lx.token_specification), single_char_tokens=Const(_lx.single_char_tokens), in_unit_test=Const(_lx.in_unit_test))
+        REG.contract('C02', P, 'Lexer.lex', variant='machinefile' if _mf else '', params={'self': LexS, 'filename': Str},
+                     ensures=['tiles(__yield__, len(__yield__), len(self.code))'],
+                     raises={'ParseException': 'True'}, exact_raises=False, yields=TokenR,
+                     loops={0: Loop(invariant=['loc >= 0 and loc <= len(self.code)', 'line_start >= 0 and line_start <= loc', 'tiles(__yield__, len(__yield__), loc)'],
+                                    decreases='len(self.code) - loc')},
+                     uses=[('L02.tiles_append', {'ys': '*', 't': '*'})],
+                     opaque_classes=['BaseNode'], floor=30, shards=4,
+                     note='tokens tile the text; the position strictly increases (termination); only ParseException escapes')
+except ImportError:      # pragma: no cover
+    pass
